@@ -292,6 +292,139 @@ func runHistory(spec CaseSpec, st *stats) (viol []Violation, inconclusive string
 	return
 }
 
+// ---- snapshot consistency of multi-market updates (the per-market partition of the porcupine check cannot see it) ----
+// Every update writes ALL markets with one unique price and one globally increasing timestamp for one exchange, so
+// whatever set of updates has been applied, the newest applied one is the same for every market: a read must
+// return the same price for all markets (or none for all).
+func runAtomicity(spec CaseSpec, st *stats) (viol []Violation) {
+	r := rand.New(rand.NewSource(spec.Seed*104729 + int64(spec.Case)))
+	markets := 2 + r.Intn(3)
+	writers := 1 + r.Intn(4)
+	readers := 1 + r.Intn(3)
+	rounds := 300
+	mte := pricefeedtypes.NewMarketToExchangePrices(time.Hour)
+	base := time.Unix(1_700_000_000, 0)
+	var clock int64
+	var wg sync.WaitGroup
+	var stop int32
+	var mu sync.Mutex
+	reads, mixed := 0, 0
+	var witness string
+	for w := 0; w < writers; w++ {
+		wg.Add(1)
+		go func(w int) {
+			defer wg.Done()
+			for k := 0; k < rounds; k++ {
+				n := atomic.AddInt64(&clock, 1)
+				ts := base.Add(time.Duration(n) * time.Millisecond)
+				var req []*servertypes.MarketPriceUpdate
+				for m := 0; m < markets; m++ {
+					req = append(req, &servertypes.MarketPriceUpdate{MarketId: uint32(m), ExchangePrices: []*servertypes.ExchangePrice{{ExchangeId: exchanges[0], Price: uint64(n), LastUpdateTime: &ts}}})
+				}
+				mte.UpdatePrices(req)
+				if k%7 == 0 {
+					runtime.Gosched()
+				}
+			}
+		}(w)
+	}
+	var rg sync.WaitGroup
+	for q := 0; q < readers; q++ {
+		rg.Add(1)
+		go func() {
+			defer rg.Done()
+			var params []clienttypes.MarketParam
+			for m := 0; m < markets; m++ {
+				params = append(params, clienttypes.MarketParam{Id: uint32(m), MinExchanges: 1})
+			}
+			for atomic.LoadInt32(&stop) == 0 {
+				got := mte.GetValidMedianPrices(params, base.Add(time.Second))
+				p0, ok0 := got[0]
+				bad := false
+				for m := 1; m < markets; m++ {
+					if p, ok := got[uint32(m)]; ok != ok0 || p != p0 {
+						bad = true
+					}
+				}
+				mu.Lock()
+				reads++
+				if bad {
+					mixed++
+					if witness == "" {
+						witness = fmt.Sprint(got)
+					}
+				}
+				mu.Unlock()
+			}
+		}()
+	}
+	wg.Wait()
+	atomic.StoreInt32(&stop, 1)
+	rg.Wait()
+	st.count("c20.atomicity.reads", reads)
+	st.count("c20.atomicity.updates", writers*rounds)
+	st.bucket("c20|atomicity|markets=%d|writers=%d|readers=%d", markets, writers, readers)
+	if mixed > 0 {
+		viol = append(viol, Violation{Property: "C20", Monitor: "atomicity", Sig: "read-saw-part-of-a-multi-market-update", Phase: "pricelab",
+			Detail: map[string]interface{}{"mixed_reads": mixed, "reads": reads, "markets": markets, "writers": writers, "first_witness": witness}})
+	}
+	return
+}
+
+// ---- no completed update is lost: concurrent FIRST updates of a market on fresh instances ----
+func runFirstUpdates(spec CaseSpec, st *stats, instances int) (viol []Violation) {
+	r := rand.New(rand.NewSource(spec.Seed*15485863 + int64(spec.Case)))
+	workers := 2 + r.Intn(3)
+	base := time.Unix(1_700_000_000, 0)
+	insts := make([]*pricefeedtypes.MarketToExchangePrices, instances)
+	for i := range insts {
+		insts[i] = pricefeedtypes.NewMarketToExchangePrices(time.Hour)
+	}
+	arrived := make([]int32, instances)
+	var wg sync.WaitGroup
+	for w := 0; w < workers; w++ {
+		wg.Add(1)
+		go func(w int) {
+			defer wg.Done()
+			ts := base.Add(time.Duration(w+1) * time.Millisecond)
+			for i := 0; i < instances; i++ {
+				// spin barrier: all workers hit instance i at the same moment
+				atomic.AddInt32(&arrived[i], 1)
+				for spin := 0; atomic.LoadInt32(&arrived[i]) < int32(workers); spin++ {
+					if spin%64 == 63 {
+						runtime.Gosched()
+					}
+				}
+				insts[i].UpdatePrices([]*servertypes.MarketPriceUpdate{{MarketId: 7, ExchangePrices: []*servertypes.ExchangePrice{{ExchangeId: exchanges[w], Price: uint64(1000 + w), LastUpdateTime: &ts}}}})
+			}
+		}(w)
+	}
+	wg.Wait()
+	want := make([]uint64, workers)
+	for w := range want {
+		want[w] = uint64(1000 + w)
+	}
+	wm := medianRef(want)
+	lost := 0
+	var witness string
+	for i, inst := range insts {
+		got := inst.GetValidMedianPrices([]clienttypes.MarketParam{{Id: 7, MinExchanges: uint32(workers)}}, base.Add(time.Second))
+		if p, ok := got[7]; !ok || p != wm {
+			lost++
+			if witness == "" {
+				witness = fmt.Sprintf("instance %d: present=%v price=%d want=%d with %d exchanges", i, ok, p, wm, workers)
+			}
+		}
+	}
+	st.count("c20.first-update.instances", instances)
+	st.bucket("c20|first-update|workers=%d", workers)
+	if lost > 0 {
+		viol = append(viol, Violation{Property: "C20", Monitor: "first-update", Sig: "completed-update-lost-after-concurrent-first-updates", Phase: "pricelab",
+			Detail: map[string]interface{}{"instances_with_lost_update": lost, "instances": instances, "workers": workers, "first_witness": witness}})
+	}
+	return
+}
+
 type barrier struct {
 	mu    sync.Mutex
 	cond  *sync.Cond
@@ -479,6 +612,12 @@ func main() {
 		res := CaseResult{Spec: spec}
 		viol, inc, sample := runHistory(spec, st)
 		res.Violations = viol
+		if i%4 == 1 {
+			res.Violations = append(res.Violations, runAtomicity(spec, st)...)
+		}
+		if i%4 == 2 {
+			res.Violations = append(res.Violations, runFirstUpdates(spec, st, map[string]int{"quick": 6000, "thorough": 20000}[*tier])...)
+		}
 		res.Inconclusive = inc
 		res.Samples = []string{sample}
 		if i%40 == 0 { // the pure-function part once per 40 histories
